@@ -20,6 +20,18 @@ CLAIMED = {
   'Lean 4 proof: worklist walk = reachability without duplicates (any finite graph, cycles included), closed form of every weight, monotonicity, probability range; correspondence of wn.ic.compute with exact rationals',
   'Theorems in Props/C15.lean: the ancestor walk of compute() terminates for every finite hypernym graph and visits exactly the word synset and its ancestors, each once (C15_touched, via Lemmas/Walk.lean: sound, complete, nodup, fuel bound); C15_once / C15_total give the closed form of every synset weight and part-of-speech total; C15_monotone, C15_le_total, C15_prob_range, C15_prob_monotone derive monotonicity and 0 < p <= 1 (for smoothing > 0 and hypernymy inside one a/s-folded part of speech); unknown words ignored; s counted as a. Tied to wn/ic.py by running compute() on random graphs x corpora x distribute x smoothing and comparing every weight with the exact rational (1e-9 relative), plus an independent Fraction/BFS oracle and a load() file check.',
   'Trusted: Lean kernel, standard axioms; float summation order, wordnet.synsets(word) lookup (C09) and file parsing of load() are covered by correspondence/oracle only.'),
+ 'C01': (
+  'Lean 4 executable relational model of _add.py/_queries.py/_core.py (layer B) tied by full-observation correspondence; document-level oracle; proofs on the model (see level text)',
+  'The whole add path (_precheck, lookup tables, _collect_frames, _insert_lexicon, lexid map, the fifteen _insert_* steps with their sub-select resolutions, NOT NULL/UNIQUE failures) and the query/entity layer are transcribed into Lean (Model/Add.lean, Query.lean, Api.lean, ~1500 lines) and run against the real library on generated resources (LMF 1.0-1.3, hostile strings, metadata everywhere, extensions using every documented pattern, extensions of extensions, lowered BATCH_SIZE): the complete public-API observation of every lexicon must agree with the model and with an independent document-level oracle field by field. Theorems currently proved over this model are listed in the evidence (theorems); the refinement theorem (decode after add = document) is proved for the slice named there and stated _partial for the rest.',
+  'Trusted: Lean kernel, standard axioms; SQLite storage/ordering and the JSON metadata adapter are covered by correspondence only. Known finding F12 (unscoped tags/pronunciations).'),
+ 'C05': (
+  'Lean 4 relational model with remove()/cascade (Model/Remove.lean, schema re-checked against Gen.schema) tied by step-by-step correspondence over random histories; fresh-database oracle + SQLite audits',
+  'Random histories of add / remove (ids, versions, star patterns, lists) / add-ILI over a universe with extensions of extensions, a dependant, two versions of one id and an unrelated lexicon are executed on the real library and on the Lean model; observations agree after every step. The final observation must equal that of a fresh database holding exactly the installed lexicons, PRAGMA foreign_key_check / integrity_check must be clean and every owned row must belong to an installed lexicon. Theorems proved over the model are listed in the evidence. Known finding F12 (tags/pronunciations of a removed extension survive).',
+  'Trusted: Lean kernel, standard axioms; SQLite cascade execution and rowid allocation modelled (max+1), validated by correspondence.'),
+ 'C17': (
+  'Lean 4 proof over a transcription of wn/morphy.py; rule table re-generated from the source and proved equal to the specification table on every run; correspondence on generated lexicons',
+  'Theorems in Props/C17.lean: soundness (an initialised Morphy returns only lemmas of the requested part of speech), completeness for the query itself, for exception (irregular) forms and for every detachment rule, exact characterisation of the uninitialised result (rule outputs with proper suffixes only, plus the original form), the dictionary structure of __call__, and Gen.morphy_rules = rules. The real Morphy is run on generated lexicons (inflection-like lemmas, shared irregular forms, a/s, bare-suffix forms) x queries x pos in {None,n,v,a,s,r,x} x both modes and must agree with the model; Wordnet(lemmatizer=...) look-ups are judged against the union over proposed pairs with a document-level oracle (with and without normalizer).',
+  'Trusted: Lean kernel, standard axioms; the translator that prints the rule table; wordnet.words()/forms() (C01).'),
 }
 
 NOT_YET = {}
